@@ -208,7 +208,7 @@ def run_program(job):
     -> picklable result dict"""
     entry, tier = job["entry"], job["tier"]
     rng = random.Random(f"{job['seed']}:c14p:{entry['name']}")
-    res = {"name": entry["name"], "findings": [], "stats": {}, "snaps": [], "errors": [], "inputs": [], "ref_runtime": None}
+    res = {"name": entry["name"], "findings": [], "stats": {}, "snaps": [], "errors": [], "inputs": [], "ref_runtime": None, "live": []}
     stats = res["stats"]
     t0 = time.time()
     try:
@@ -244,6 +244,7 @@ def run_program(job):
         for level in job["levels"]:
             cfg = Config(True, level, EVM)
             st = H.State(record=True, wf=True, keep_text=True)
+            st.want_live = bool(job.get("want_live"))
             try:
                 out = H.compile_with(entry["src"], cfg, st, formats=("bytecode", "layout"))
             except Exception as e:  # noqa
@@ -279,6 +280,15 @@ def run_program(job):
                 if status in ("mismatch", "not-idempotent"):
                     res["findings"].append({"kind": "roundtrip", "level": level, "config": cfg.name, "pass": s["pass"], "fn": s["fn"],
                                             "idx": s["idx"], "status": status, "detail": detail, "text": s["after"][:3000]})
+            if st.want_live:
+                # liveness observations: all those made for code generation, and a seeded sample of those made for passes
+                stats["live_runs"] = stats.get("live_runs", 0) + st.n_live_runs
+                cg = [o for o in st.live_obs if o["phase"] in ("codegen", "observer-error")]
+                rest = [o for o in st.live_obs if o["phase"] not in ("codegen", "observer-error")]
+                rng.shuffle(rest)
+                cap = job.get("live_cap", 4)
+                for o in cg[:cap] + rest[:cap]:
+                    res["live"].append(dict(o, prog=entry["name"], level=level))
             if job.get("want_snaps"):
                 for s in st.snaps:
                     if s["changed"] and s["fn"] != "<ctx>":
